@@ -10,7 +10,7 @@ selector locals. Edges carry literals derived from the switch they leave through
 
 Both are path-insensitive except for edge labels, hence sound over-approximations of feasible paths.
 """
-from .an import mk_bin, mk_un, walk, fields_read, show, strip_generics
+from .an import mk_bin, mk_un, mk_vfield, walk, fields_read, show, strip_generics
 
 STD_ENUMS = {
     "core::option::Option": {0: "None", 1: "Some"},
@@ -203,6 +203,17 @@ def show_lit(l):
 def _range_conj(facts, lit):
     """`(a..=b).contains(&x)` holding is the conjunction `!(x < a)` and `!(b < x)` (`a..b`: `x < b`); the literal is
     kept as well, so that rules written against either form find theirs"""
+    if lit[0] == "is" and lit[2] is True and lit[1][0] == "bin" and lit[1][1] == "Eq":
+        # `Some(v) == e` / `Ok(v) == e` holding: e is that variant and its payload equals v
+        for a_, b_ in ((lit[1][2], lit[1][3]), (lit[1][3], lit[1][2])):
+            if a_[0] == "adt" and len(a_[2]) == 1 and b_[0] not in ("adt", "enum") and a_[1].rsplit("::", 1)[0] in ("core::option::Option", "core::result::Result"):
+                adt_, var_ = a_[1].rsplit("::", 1)
+                return (lit, ("in", b_, frozenset([var_]), adt_), norm_lit(facts, mk_bin("Eq", a_[2][0][1], mk_vfield(b_, a_[1], 0)), True))
+        # `S { a: x, b: y } == S { a: p, b: q }` (a derived PartialEq on a plain struct) holding: fieldwise equality
+        a_, b_ = lit[1][2], lit[1][3]
+        if a_[0] == "adt" and b_[0] == "adt" and a_[1] == b_[1] and len(a_[2]) == len(b_[2]) and len(a_[2]) > 1 and [x[0] for x in a_[2]] == [x[0] for x in b_[2]] \
+                and facts.adt(a_[1].rsplit("::", 1)[0]) is not None and (facts.adt(a_[1].rsplit("::", 1)[0]) or {}).get("kind") == "struct":
+            return (lit,) + tuple(norm_lit(facts, mk_bin("Eq", x[1], y[1]), True) for x, y in zip(a_[2], b_[2]))
     if lit[0] == "is" and lit[2] is True and lit[1][0] == "call" and lit[1][1].endswith("::contains") and len(lit[1][2]) == 2:
         r, x = lit[1][2]
         if r[0] == "call" and r[1].endswith("RangeInclusive::new") and len(r[2]) == 2:
